@@ -633,12 +633,21 @@ func ackConnective(fn *FuncNode, isSel func(*ast.SelectorExpr) bool, objs ...typ
 		if !hit {
 			return true
 		}
-		if id, ok := ast.Unparen(as.Rhs[0]).(*ast.Ident); ok {
-			switch id.Name {
+		switch rhs := ast.Unparen(as.Rhs[0]).(type) {
+		case *ast.Ident:
+			switch rhs.Name {
 			case "true":
 				sawTrue = true
 			case "false":
 				sawFalse = true
+			}
+		case *ast.BinaryExpr:
+			// acc = acc && x  /  acc = acc || x
+			switch rhs.Op {
+			case token.LAND:
+				sawFalse = true
+			case token.LOR:
+				sawTrue = true
 			}
 		}
 		return true
